@@ -1172,7 +1172,15 @@ func (m *ExpirationManager) RevokeByToken(ctx context.Context, te *logical.Token
 
 	// Revoke all the keys by marking them expired
 	for _, leaseID := range existing {
-		err := m.lazyRevokeInternal(ctx, leaseID)
+		// A lease lives in the namespace of the mount that issued it, which
+		// may be a descendant of the token's namespace; the lease record is
+		// looked up through the namespace in the context.
+		leaseCtx := ctx
+		if leaseNS, err := m.getNamespaceFromLeaseID(ctx, leaseID); err == nil {
+			leaseCtx = namespace.ContextWithNamespace(ctx, leaseNS)
+		}
+
+		err := m.lazyRevokeInternal(leaseCtx, leaseID)
 		if err != nil {
 			return err
 		}
